@@ -70,13 +70,16 @@ def exc_class(name):
     return {'error': 'StructError'}.get(name, name)
 
 
-def batch(msgs, default):
+def batch(msgs, default, ref_start=None):
+    """ref_start: where the Sender's 0..255 reference generator stands (as after that many messages sent before)"""
     from aiosmpplib.protocol import SubmitSm
     s = Sim(enquire_link_interval=1e6, socket_timeout=5.0, default_encoding=default)
     obs = []
     try:
         refs, seqs = [], []
         rg = s.esme._ref_seq_generator
+        if ref_start is not None:
+            rg.sequence_num = ref_start
         orig_ref = rg.next_sequence
 
         def ref_next():
